@@ -1,4 +1,4 @@
-/- Driver for C12: line = "(cmds script)<TAB>(events final)"; see harness/props/c12.
+/- Driver for C12: line = "(cmds script [executors])<TAB>(events final)"; see harness/props/c12.
 
    Monitor style. The implementation's observation is the linearisation the
    harness recorded (send calls, ProcessResponse calls, callbacks). The driver
@@ -141,6 +141,18 @@ def parseQs (x : SExp) : Option (List Nat) := do
   cs.mapM? fun
     | .list (q :: _) => q.nat?
     | _ => none
+
+/-- The optional third field of the input: the assignment of targets to executors,
+    `((t e)*)` — target `t` (its task id) sits behind agent+executor `e`; a target that is
+    not listed has an executor of its own. The replay does not use it: the code's key holds
+    the whole target, and with that key the assignment does not enter the model
+    (`C12_executors_irrelevant`, `C12_own_or_error_every_partition`; tie `C12_key_cfg_is_code`). -/
+def parseEx : List SExp → Option (List (Nat × Nat))
+  | [] => some []
+  | [.list ps] => ps.mapM? fun
+      | .list [t, e] => do pure ((← t.nat?), (← e.nat?))
+      | _ => none
+  | _ => none
 
 /-- Monitor state: the model's state (queue layer on top of the servent/commit
     layer) plus the commands whose reported callback has been matched. -/
@@ -322,9 +334,9 @@ def processLine (line : String) : String :=
   match SExp.fields line with
   | [inp, impl] =>
     match SExp.parse inp with
-    | some (.list [cs, _script]) =>
-      match parseCmds cs, parseQs cs with
-      | some cmds, some qs =>
+    | some (.list (cs :: _script :: exs)) =>
+      match parseCmds cs, parseQs cs, parseEx exs with
+      | some cmds, some qs, some _ex =>
         match SExp.parse impl with
         | some (.list [.list evs, .list fin]) =>
           match evs.mapM? parseEvent, fin.mapM? parseFinal with
@@ -336,7 +348,7 @@ def processLine (line : String) : String :=
             s!"{model}\t{if spec then 1 else 0}\t-"
           | _, _ => "REJECT:observation holds something that is neither a scripted reply nor a synthesised error, or a send call that was handed something other than the command restricted to its target\t0\t-"
         | _ => "REJECT:unparseable observation\t0\t-"
-      | _, _ => "BADINPUT\t0\t-"
+      | _, _, _ => "BADINPUT\t0\t-"
     | _ => "BADINPUT\t0\t-"
   | _ => "BADLINE\t0\t-"
 
